@@ -74,7 +74,22 @@ fn check_lu(run: &Run, site: &str, a: &[f64], n: usize, lu: &[f64], piv: &[i32],
     true
 }
 
+/// the factorisation is invariant under exact power-of-two scalings of the matrix (same pivots, same L,
+/// U scaled): the same suite on 2^-60·A and 2^60·A (entries far below / above machine epsilon)
 fn lu_suite(run: &Run, tag: &str, a: &[f64], n: usize, exact_det: Option<f64>) {
+    lu_suite_one(run, tag, a, n, exact_det);
+    if n <= 12 {
+        for e in [-60i32, 60] {
+            let sc = 2f64.powi(e);
+            let b: Vec<f64> = a.iter().map(|v| v * sc).collect();
+            let d = if n <= 8 { exact_det.map(|d| d * 2f64.powi(e * n as i32)) } else { None };
+            lu_suite_one(run, &format!("{}*2^{}", tag, e), &b, n, d);
+            run.regime("lu-scaled");
+        }
+    }
+}
+
+fn lu_suite_one(run: &Run, tag: &str, a: &[f64], n: usize, exact_det: Option<f64>) {
     run.case();
     let desc = || format!("{} A({}x{})={:?}", tag, n, n, a);
     run.trs(2);
@@ -248,10 +263,23 @@ fn chol_suite(run: &Run, tag: &str, a: &[f64], n: usize, pd: bool, exact_l: Opti
 }
 
 fn tri_suite(run: &Run, t: &[f64], n: usize, lower: bool) {
+    // a dense right-hand side, every unit vector (inverting the triangle), leading / trailing zeros, zero
+    let mut rhs: Vec<Vec<f64>> = vec![(0..n).map(|i| (i as f64 + 1.0) * if i % 2 == 0 { 1.0 } else { -0.5 }).collect()];
+    for k in 0..n {
+        rhs.push((0..n).map(|i| if i == k { 1.0 } else { 0.0 }).collect());
+    }
+    rhs.push((0..n).map(|i| if i < n / 2 { 0.0 } else { i as f64 - 0.5 }).collect());
+    rhs.push((0..n).map(|i| if i >= (n + 1) / 2 { 0.0 } else { 2.0 - i as f64 }).collect());
+    rhs.push(vec![0.0; n]);
+    for b in rhs {
+        tri_suite_one(run, t, n, lower, b);
+    }
+}
+
+fn tri_suite_one(run: &Run, t: &[f64], n: usize, lower: bool, b: Vec<f64>) {
     run.case();
     run.trs(2);
     run.ok();
-    let b: Vec<f64> = (0..n).map(|i| (i as f64 + 1.0) * if i % 2 == 0 { 1.0 } else { -0.5 }).collect();
     let what = if lower { "forward_substitution" } else { "backward_substitution" };
     let desc = || format!("{} T({}x{})={:?} b={:?}", what, n, n, t, b);
     let s = guard(|| if lower { linalg::forward_substitution(t, &b) } else { linalg::backward_substitution(t, &b) });
